@@ -358,7 +358,7 @@ theorem C15_inv_init (cl : Prop) (w0 : W) (hs : Startup w0) (hg : cl → Good w0
 
 /-- the start-up conditions, and the cleanliness of the static data, survive `dev_initial_connect` (which queues login
     actions and opens sockets): the runs above may start from the world after it -/
-theorem C15_startup_initial_connect (w0 : W) (hs : Startup w0) (now con soe : Nat) :
+theorem C15_startup_initial_connect (w0 : W) (hs : Startup w0) (now : Nat) (con soe : List Nat) :
     Startup (initialConnect w0 now con soe).1 ∧ (Good w0 → Good (initialConnect w0 now con soe).1) :=
   ⟨hs.initialConnect now con soe, fun hg => hg.initialConnect now con soe⟩
 
